@@ -2,12 +2,12 @@
 EXTENDS C12_HolePunch, Json
 \* exhaustive instance: every peerstore mix, every CONNECT content, every own-address value, every table
 F_PS == SUBSET {"pP", "pV", "pR"}
-F_Msg == SUBSET {"mP", "mV", "mR", "mG"}
+F_Msg == SUBSET {"mP", "mV", "mR", "mS", "mG"}
 F_Own == SUBSET {"oP", "oR"}
 F_Conn == SUBSET {"D", "L", "U"}
 \* instance whose whole graph is printed and replayed on the real code
 S_PS == {{}, {"pR"}, {"pV", "pR"}, {"pP", "pR"}, {"pP", "pV", "pR"}}
-S_Msg == {{}, {"mR", "mG"}, {"mP"}, {"mV", "mR"}, {"mP", "mV", "mR", "mG"}}
+S_Msg == {{}, {"mR", "mG"}, {"mP"}, {"mV", "mR", "mS"}, {"mP", "mV", "mR", "mS", "mG"}}
 S_Own == {{}, {"oR"}, {"oP", "oR"}}
 S_Conn == {{}, {"L"}, {"U"}, {"D", "L"}, {"L", "U"}, {"D"}}
 
